@@ -329,6 +329,11 @@ def gen_xl_module(rnd, profile):
         b = ((ps, rs), locs, code)
         bodies.append(b)
         dup_pool.append(b)
+    # functions whose code-section entry (locals vector + code + end) has an exact byte length: hash block boundaries
+    for (L, a, k) in profile.get("aligned", []):
+        b = (((), (I32,)), [], aligned_code(L, a, k))
+        bodies.append(b)
+        sigs.append(b[0])
     if has_mem:
         m.memory(1, r.choice([None, 2, 16]), export="memory" if r.random() < 0.7 else None)
     if table_types:
@@ -366,6 +371,11 @@ def gen_xl_module(rnd, profile):
     return m, bodies, sigs, nimp
 
 
+def aligned_code(L, a, k):
+    # 1 (empty locals vector) + 3 (i32.const a; drop) + nops + 2 (i32.const k) + 1 (end) = L bytes; a, k in 0..63
+    return [("i32.const", a), "drop"] + ["nop"] * (L - 7) + [("i32.const", k)]
+
+
 def gen_xlcorpus(outdir, seed, count):
     os.makedirs(outdir, exist_ok=True)
     rnd = random.Random(seed)
@@ -376,8 +386,12 @@ def gen_xlcorpus(outdir, seed, count):
                 "names": r.random() < 0.5, "tame": r.random() < 0.5, "tame_names": r.random() < 0.8,
                 "dup": r.choice([0.0, 0.15, 0.5]), "export_p": r.choice([0.0, 0.5, 1.0]),
                 "maxname": r.choice([10, 60, 300]), "sizes": r.choice([[0, 1, 2], [0, 1, 2, 3, 6, 15], [1, 40]])}
+        r3 = random.Random(seed * 7919 + i)
+        if r3.random() < 0.5:
+            prof["aligned"] = [(r3.choice([64, 128, 192, 256, 320, 576, 127, 129, 191, 193, 100]), r3.randrange(64), r3.randrange(64)) for _ in range(r3.choice([1, 2, 3]))]
         st = r.getstate()
         m, bodies, sigs, nimp = gen_xl_module(r, prof)
+        n_aligned = len(prof.get("aligned", []))
         data = m.encode()
         name = "m%03d" % i
         with open(os.path.join(outdir, name + ".wasm"), "wb") as f:
@@ -393,7 +407,14 @@ def gen_xlcorpus(outdir, seed, count):
         changed = []
         for k, (sig, locs, code) in enumerate(bodies):
             x = r2.random()
-            if x < 0.25:
+            if k >= len(bodies) - n_aligned:
+                # same length, one byte different: in the last byte before the end, in the second byte, or not at all
+                L, a, kk = prof["aligned"][k - (len(bodies) - n_aligned)]
+                y = r3.randrange(3)
+                mref.func(sig[0], sig[1], aligned_code(L, (a + 1) % 64 if y == 1 else a, (kk + 1) % 64 if y == 0 else kk))
+                if y < 2:
+                    changed.append(k)
+            elif x < 0.25:
                 mref.func(sig[0], sig[1], list(code) + ["nop"], locals_=locs)
                 changed.append(k)
             elif x < 0.35:
